@@ -1305,7 +1305,38 @@ def corpus_collision(cx, c):
     return res
 
 
-CORPUS_KINDS = {"collision": corpus_collision, "typed_copy": corpus_typed_copy, "diff_cross_format": corpus_diff_cross_format, "diff_deep": corpus_diff_deep,
+def corpus_symlink_compress(cx, c):
+    """compaction of a file named through a relative symbolic link, called from another directory"""
+    ck, work = cx.ck, cx.ck.work
+    d = os.path.join(work, "c_sl")
+    shutil.rmtree(d, ignore_errors=True); os.makedirs(d)
+    real = [N(b"Keep", b"LK", "I4", [2], struct.pack("<ii", 4, 2))]
+    by = [N(b"Bystander", b"LB")]
+    build_files(cx.exe["cgio_h"], work, {"be": "adf", "order": ["c_sl/real.adf"], "trees": {"c_sl/real.adf": real}}, ck.rng)
+    build_files(cx.exe["cgio_h"], work, {"be": "adf", "order": ["real.adf"], "trees": {"real.adf": by}}, ck.rng)
+    os.symlink("real.adf", os.path.join(d, "link.adf"))
+    lines, oc, st = run_ops(cx, ["dump real.adf 0", "dump c_sl/real.adf 0", "compress c_sl/link.adf c_sl/link.adf r 0",
+                                 "dump real.adf 0", "dump c_sl/real.adf 0", "dump c_sl/link.adf 0"], work)
+    sec = sections(lines)
+    ck.cov["traces_validated_against_impl"] += 1
+    still_link = os.path.islink(os.path.join(d, "link.adf"))
+    res = {"outcome": oc, "status": sec[2][1] if len(sec) > 2 else None, "link_kept": still_link,
+           "bystander_before": sec[0][2] if sec else None, "bystander_after": sec[3][2] if len(sec) > 3 else None}
+    if oc != "ok" or len(sec) != 6:
+        fail(cx, NOWORLD, -1, {"oracle": "compaction through a relative symbolic link runs", "outcome": oc, "stack": st})
+    elif sec[2][1] == "ok" and (sec[3][2] != sec[0][2] or sec[3][1] != "ok"):
+        finding_once(ck, c["key"], dict(res, what=c["what"]))
+    elif sec[2][1] == "ok" and (sec[4][2] != sec[1][2] or sec[5][2] != sec[1][2] or not still_link):
+        fail(cx, NOWORLD, -1, dict(res, oracle="the compacted file and the link through which it was named still hold the source's tree"))
+    for f in ("real.adf",):
+        try:
+            os.unlink(os.path.join(work, f))
+        except OSError:
+            pass
+    return res
+
+
+CORPUS_KINDS = {"symlink_compress": corpus_symlink_compress, "collision": corpus_collision, "typed_copy": corpus_typed_copy, "diff_cross_format": corpus_diff_cross_format, "diff_deep": corpus_diff_deep,
                 "compress_open": corpus_compress_open, "nested_link": corpus_nested_link, "link_target": corpus_link_target,
                 "tol_nan": corpus_tol_nan}
 
